@@ -14,12 +14,12 @@ RULE = (
     "random parameters for both shipped MCMC sample types (scales 1e-3..1e3 so the clip saturates on both sides; the last "
     "embedding row, which index -1 aliases, non-zero), screens of arity 1 and 2 with the control in either or both "
     "columns, random subsets (empty, full, overlapping), column swaps and single-agent twins rebuilt with the same "
-    "mappings, row permutations; a scalar reference recomputes every mean; a purity monitor hashes theta and screen "
+    "mappings, row permutations, plus screens of 4095-9001 rows checked against a vectorised reference; a scalar reference recomputes every mean; a purity monitor hashes theta and screen "
     "before/after each predict_* call; predict_*_all/_avg compared with per-sample predictions. A case is one (theta, "
     "screen); distinct = hash of both; non-trivial = the screen holds a control in some column and >=2 rows"
 )
 ASSUMPTIONS = ["the interaction sample type links through exp and the Bliss baseline: its viability is checked against its own documented formula and its mean must be 0 whenever a control is present"]
-REQUIRED = {"theta_screen_pairs": {"quick": 1500, "thorough": 40000}, "purity_checks": {"quick": 6000, "thorough": 150000}, "control_neutrality_rows": {"quick": 3000, "thorough": 80000}, "helper_checks": {"quick": 200, "thorough": 5000}}
+REQUIRED = {"theta_screen_pairs": {"quick": 1500, "thorough": 40000}, "purity_checks": {"quick": 6000, "thorough": 150000}, "control_neutrality_rows": {"quick": 3000, "thorough": 80000}, "helper_checks": {"quick": 200, "thorough": 5000}, "large_screens": {"quick": 8, "thorough": 60}}
 N_PAIRS = {"quick": 4000, "thorough": 64000}
 
 
@@ -248,10 +248,54 @@ def run_shard(rec, tier, seed, shard, nshards):
                     rec.check(kit.close(vavg, want_v, rel=1e-12) and kit.close(mavg, want_m, rel=1e-12), "C09/helpers/avg-not-the-mean", lambda: "averaged helper %r, exact mean %r (T=%d)" % (np.asarray(vavg)[:3].tolist(), want_v[:3].tolist(), T), w)
             if pi == 0 and shard == 0:
                 rec.sample({"kind": kind, "arity": arity, "treatment_ids": tids.tolist()[:6], "mean": mean[:6].tolist(), "viability": via[:6].tolist(), "variance": float(var[0]) if n else None})
+        large_screens(rec, tier, rng)
     finally:
         P.undo()
     if tier == "thorough" and shard == 0:
         run_repo_tests(rec)
+
+
+def large_screens(rec, tier, rng):
+    """Screens of several thousand rows: a blocked / chunked implementation must still be row-wise exact."""
+    from batchie.data import Screen, ExperimentSpace
+
+    for li in range(1 if tier == "quick" else 4):
+        n = int(rng.choice([4095, 4096, 4097, 5000, 6300, 8193, 9001]))
+        nS, nD = int(rng.integers(2, 6)), int(rng.integers(3, 8))
+        drugs = np.array(["d%02d" % i for i in range(nD)] + [""])
+        tn = drugs[rng.integers(0, nD + 1, size=(n, 2))]
+        td = np.where(tn == "", 0.0, rng.choice([0.5, 1.0, 2.0], size=(n, 2)))
+        sn = np.array(["s%d" % i for i in rng.integers(0, nS, size=n)])
+        screen = Screen(treatment_names=tn.astype(str), treatment_doses=td.astype(float), sample_names=sn.astype(str), plate_names=np.array(["p"] * n, dtype=str))
+        sp = ExperimentSpace.from_screen(screen)
+        for kind in ("sparse", "interaction"):
+            th = gen.random_sparse_combo_theta(rng, sp.n_unique_samples, sp.n_unique_treatments, scale=1.0) if kind == "sparse" else gen.random_interaction_theta(rng, sp.n_unique_samples, sp.n_unique_treatments, scale=1.0)
+            sids, tids = np.asarray(screen.sample_ids), np.asarray(screen.treatment_ids)
+            z = lambda A: np.concatenate([np.asarray(A, dtype=float), np.zeros((1,) + np.asarray(A).shape[1:])])  # row -1 == control == 0
+            W = th.W[sids]
+            if kind == "sparse":
+                ref = th.alpha + th.W0[sids] + z(th.V0)[tids[:, 0]] + z(th.V0)[tids[:, 1]] + np.sum(W * (z(th.V1)[tids[:, 0]] + z(th.V1)[tids[:, 1]]), axis=1) + np.sum(W * z(th.V2)[tids[:, 0]] * z(th.V2)[tids[:, 1]], axis=1)
+            else:
+                ref = np.sum(W * z(th.V2)[tids[:, 0]] * z(th.V2)[tids[:, 1]], axis=1)
+            w = {"kind": kind, "rows": n, "large": True}
+            rec.case(("large", kind, n, li), nontrivial=True)
+            rec.count("large_screens")
+            try:
+                mean = np.asarray(th.predict_conditional_mean(screen), dtype=float)
+                via = np.asarray(th.predict_viability(screen), dtype=float)
+                var = np.asarray(th.predict_conditional_variance(screen), dtype=float)
+            except Exception as e:
+                rec.violation("C09/predict/raises", "%s prediction on %d rows raised %r" % (kind, n, e), w)
+                continue
+            bad = np.flatnonzero(np.abs(mean - ref) > 1e-9 * (1 + np.abs(ref)) * (1 + _mag(th))) if mean.shape == ref.shape else np.array([0])
+            rec.check(mean.shape == (n,) and bad.size == 0, "C09/mean/differs-from-reference", lambda: "%d-row screen: %d rows differ from the row-wise reference, first at row %d" % (n, bad.size, int(bad[0])), w)
+            rec.check(var.shape == (n,) and bool(np.all(var == 1.0 / th.precision)), "C09/variance/not-reciprocal-precision", "variance wrong on a %d-row screen" % n, w)
+            m = rng.random(n) < 0.5
+            sub = screen.subset(m)
+            rec.check(np.array_equal(np.asarray(th.predict_conditional_mean(sub)), mean[m]) and np.array_equal(np.asarray(th.predict_viability(sub)), via[m]), "C09/rowwise/subset-differs-from-whole", "subset of a %d-row screen predicts differently from the whole" % n, w)
+            o = rng.permutation(n)
+            sp2 = Screen(treatment_names=tn[o].astype(str), treatment_doses=td[o].astype(float), sample_names=sn[o].astype(str), plate_names=np.array(["p"] * n, dtype=str), treatment_mapping=screen.treatment_mapping, sample_mapping=screen.sample_mapping)
+            rec.check(kit.close(np.asarray(th.predict_conditional_mean(sp2)), mean[o], rel=1e-15), "C09/rowwise/depends-on-row-order", "predictions on a %d-row screen change with the row order" % n, w)
 
 
 def _mag(th):
